@@ -514,10 +514,9 @@ class FJParser(sly.Parser):
         error_occurred = True
 
         if token is None:
-            error_string = (
-                f'Syntax Error in {get_position(self.line_position(None))}. '
-                f'Maybe missing }} or {{ before this line?'
-            )
+            # the input ended in the middle of a statement: there is no token, so report the last line of the file
+            last_line = curr_text.count('\n') + 1
+            error_string = f'Syntax Error in {get_position(last_line)}. Maybe missing }} or {{ before this line?'
         else:
             error_string = f'Syntax Error in {get_position(token.lineno)}, token=("{token.type}", {token.value})'
 
